@@ -551,7 +551,7 @@ func (w *world) applyModel(n *node, s setting) {
 			}
 		}
 	case "timeformat":
-		n.layout = time.RFC3339Nano
+		n.layout = "?" // which layout a call without any selects no statement says: unknown until one is given
 		for _, l := range s.layout {
 			if l != "" {
 				n.layout = l
